@@ -57,6 +57,7 @@ type Obligation struct {
 	Output  string
 	Folded  bool
 	Env     *SpecEnv // environment the goal was evaluated in (for known-finding input classes)
+	Quick   bool     // expected not to be provable (listed known finding): do not spend the full timeout on it
 }
 
 type VC struct {
